@@ -141,7 +141,7 @@ theorem hCreatePerm_ok (c s k tid cr peers) : UpdOK c s k (hCreatePerm c s k tid
       have hk := (findAlloc_some hf).2
       have hc := permLoop_changes c s.now k peers a hk
       split
-      · exact Or.inr ⟨a, hf, hc⟩
+      · trivial
       · split
         · trivial
         · exact Or.inr ⟨a, hf, hc⟩
